@@ -25,6 +25,8 @@ CONSTANTS NP, NC,            \* number of parents / children; objects are named 
           Acts,              \* enabled action names
           InitMode,          \* "empty" | "loaded" | "both"
           AllowDup,          \* Append/Insert of a child that is already in the list
+          Uni,               \* unidirectional mapping: only P.children exists (no C.parent, no backref, no many-to-one processor); a child
+                             \* may then sit in two lists at once and a move is two explicit steps (append to the new, remove from the old)
           MaxDepth
 VARIABLES st, last
 vars == <<st, last>>
@@ -50,6 +52,7 @@ NewSt == [life |-> [o \in Objs |-> "transient"], coll |-> [p \in Ps |-> <<>>], p
           val |-> [c \in Cs |-> "v0"], cval |-> [c \in Cs |-> NoValue], dbv |-> [c \in Cs |-> "absent"],
           dbp |-> {}, dbc |-> [c \in Cs |-> "absent"], dead |-> FALSE, err |-> "ok",
           dupseen |-> FALSE,       \* ghost: some list has held the same child twice (C37 finding, DESIGN 6)
+          multi |-> {},            \* ghost (unidirectional mapping): children that sat in two lists at once when a flush ran
           stale |-> {}]            \* ghost: children whose FK attribute a flush wrote while they were NOT session members and that have not been
                                    \* re-synchronised since (the flush warns "not in session ... will not proceed" but still sets c.pid in memory)
 \* a fresh session after commit: every row loaded (both sides), objects without a row are new transient instances
@@ -57,8 +60,8 @@ Reload(dbp, dbc, dbv) ==
    [NewSt EXCEPT !.life = [o \in Objs |-> IF o \in dbp \/ (o \in Cs /\ dbc[o] # "absent") THEN "persistent" ELSE "transient"],
                  !.coll = [p \in Ps |-> IF p \in dbp THEN SelectSeq(CAll, LAMBDA c : c \in Cs /\ dbc[c] = p) ELSE <<>>],
                  !.ccoll = [p \in Ps |-> IF p \in dbp THEN {c \in Cs : dbc[c] = p} ELSE {}],
-                 !.parent = [c \in Cs |-> IF dbc[c] = "absent" THEN None ELSE dbc[c]],
-                 !.cpar = [c \in Cs |-> IF dbc[c] = "absent" THEN NoValue ELSE dbc[c]],
+                 !.parent = [c \in Cs |-> IF dbc[c] = "absent" \/ Uni THEN None ELSE dbc[c]],
+                 !.cpar = [c \in Cs |-> IF dbc[c] = "absent" \/ Uni THEN NoValue ELSE dbc[c]],
                  !.pid = [c \in Cs |-> IF dbc[c] = "absent" THEN None ELSE dbc[c]],
                  !.cpid = [c \in Cs |-> IF dbc[c] = "absent" THEN None ELSE dbc[c]],
                  !.mod = {o \in Objs : ~(o \in dbp \/ (o \in Cs /\ dbc[o] # "absent"))},
@@ -134,8 +137,8 @@ UnlinkFromOld(s, c, old) == LET s1 == EvRemove(s, old, c) IN [s1 EXCEPT !.mod = 
 AppendAt(s, p, c, idx) ==
    LET s1 == CascAppend(s, p, c)
        old == s1.parent[c]
-       s2 == IF old = p THEN s1 ELSE [(IF old # None THEN UnlinkFromOld(s1, c, old) ELSE s1) EXCEPT !.parent[c] = p]
-   IN [s2 EXCEPT !.mod = @ \cup {p, c}, !.hp[c] = p, !.coll[p] = InsertAt(@, idx, c), !.dupseen = @ \/ c \in Range(s2.coll[p])]
+       s2 == IF Uni \/ old = p THEN s1 ELSE [(IF old # None THEN UnlinkFromOld(s1, c, old) ELSE s1) EXCEPT !.parent[c] = p]
+   IN [s2 EXCEPT !.mod = @ \cup (IF Uni THEN {p} ELSE {p, c}), !.hp[c] = p, !.coll[p] = InsertAt(@, idx, c), !.dupseen = @ \/ c \in Range(s2.coll[p])]
 \* list.remove() fires the remove event BEFORE the item leaves the list, list.pop() AFTER: the backref's has_dupes() test
 \* (leave c.parent alone while another occurrence remains) therefore sees one occurrence less for pop
 RemoveAt(s, p, i, isPop) ==       \* i 1-based
@@ -153,9 +156,9 @@ SetItemAt(s, p, i, c, noteDup) ==      \* i 1-based
        s2 == IF Count(s.coll[p], e) <= 1 /\ s1.parent[e] = p THEN [s1 EXCEPT !.parent[e] = None, !.mod = @ \cup {e}] ELSE s1
        s3 == CascAppend(s2, p, c)
        old == s3.parent[c]
-       s4 == IF old = p THEN s3 ELSE [(IF old # None THEN UnlinkFromOld(s3, c, old) ELSE s3) EXCEPT !.parent[c] = p]
+       s4 == IF Uni \/ old = p THEN s3 ELSE [(IF old # None THEN UnlinkFromOld(s3, c, old) ELSE s3) EXCEPT !.parent[c] = p]
        q == [s4.coll[p] EXCEPT ![i] = c]
-   IN [s4 EXCEPT !.mod = @ \cup {p, c}, !.hp[c] = p, !.coll[p] = q,
+   IN [s4 EXCEPT !.mod = @ \cup (IF Uni THEN {p} ELSE {p, c}), !.hp[c] = p, !.coll[p] = q,
                  !.dupseen = @ \/ (noteDup /\ Len(q) # Cardinality(Range(q)))]
 \* p.children[::-1] = list(p.children): an extended-slice assignment is one __setitem__ per index, last index first, values in the
 \* original order (the list holds duplicates in between; a middle element of an odd-length list is assigned onto itself)
@@ -222,7 +225,7 @@ FlushCore(s) ==
        clrA == {c \in Cs : c \notin udel /\ \E p \in pdel : (c \in HistDel(s1, p) /\ ~HasParentPess(s1, c))
                                                              \/ ("delete" \notin Casc /\ c \in HistUnch(s1, p) /\ c \notin addedAll)}
        pidA == [c \in Cs |-> IF c \in clrA THEN None ELSE s1.pid[c]]
-       m2o == {c \in usave \cap Cs : s1.parent[c] # s1.cpar[c]}
+       m2o == IF Uni THEN {} ELSE {c \in usave \cap Cs : s1.parent[c] # s1.cpar[c]}
        setB == {c \in m2o : s1.parent[c] = None \/ InSess(s1, s1.parent[c])}
        warn2 == \E c \in m2o : s1.parent[c] # None /\ ~InSess(s1, s1.parent[c])
        pidB == [c \in Cs |-> IF c \in setB THEN s1.parent[c] ELSE pidA[c]]
@@ -232,7 +235,7 @@ FlushCore(s) ==
        \* named deviation NondetFk: a child that one flushed parent reports as added and another as removed-without-parent (possible only
        \* after a remove event on a duplicate occurrence left hasparent False on a child that is still in a list, see MemberNotOrphan) gets
        \* its FK set by one parent and cleared by the other in the iteration order of a Python set: the outcome is not specified
-       nondet == \E c \in Cs : c \in setC /\ c \in clrC
+       nondet == \E c \in Cs : (c \in setC /\ c \in clrC) \/ (c \notin udel /\ Cardinality({p \in psave : c \in HistAdded(s1, p)}) > 1)
        touched == clrA \cup setB \cup setC \cup clrC
        warn == warn1 \/ warn2
        \* DML
@@ -250,6 +253,7 @@ FlushCore(s) ==
        s2 == [s1 EXCEPT !.pid = pidC, !.mod = (@ \cup touched) \ usave, !.dbp = dbp2, !.dbc = dbc2, !.dbv = dbv2,
                         !.cval = [c \in Cs |-> IF c \in usave THEN s1.val[c] ELSE s1.cval[c]],
                         !.stale = (@ \cup (touched \ usave)) \ (touched \cap usave),
+                        !.multi = @ \cup {c \in Cs : Cardinality({p \in Ps : c \in Range(s1.coll[p])}) > 1},
                         !.life = [o \in Objs |-> IF o \in udel THEN "deleted" ELSE IF o \in usave THEN "persistent" ELSE s1.life[o]],
                         !.marked = @ \ udel,
                         !.ccoll = [p \in Ps |-> IF p \in usave THEN Range(s1.coll[p]) ELSE s1.ccoll[p]],
@@ -305,8 +309,11 @@ SetParentA == Enabled("SetParent") /\ \E c \in Cs, np \in Ps \cup {None} : Step(
 FlushA == Enabled("Flush") /\ \E f \in {FlushCore(st)} : Step("Flush", <<>>, [st |-> f.st, ret |-> W(f.ret, f.warn)], f.dml)
 CommitReloadA == Enabled("CommitReload") /\ \E f \in {CommitLoop(st)} :
                     Step("CommitReload", <<>>, [st |-> IF f.st.dead THEN f.st ELSE Reload(f.st.dbp, f.st.dbc, f.st.dbv), ret |-> W(f.ret, f.warn)], f.dml)
+\* "half": only the first parent (and its children) have rows - the other parents are new objects without an identity key
+HalfDbc == [c \in Cs |-> IF LoadedDbc[c] = PAll[1] THEN PAll[1] ELSE "absent"]
 InitStates == (IF InitMode \in {"empty", "both"} THEN {NewSt} ELSE {})
               \cup (IF InitMode \in {"loaded", "both"} THEN {Reload(Ps, LoadedDbc, LoadedDbv)} ELSE {})
+              \cup (IF InitMode = "half" THEN {Reload({PAll[1]}, HalfDbc, [c \in Cs |-> IF HalfDbc[c] = "absent" THEN "absent" ELSE "v0"])} ELSE {})
 Init == st \in InitStates /\ last = [a |-> "init", arg |-> <<>>, ret |-> "ok", dml |-> {}]
 Next == SetItemA \/ ReverseA \/ SetValA \/ Add \/ Delete \/ Expunge \/ AppendA \/ InsertA \/ RemoveA \/ PopA \/ ReplaceA \/ SetParentA \/ FlushA \/ CommitReloadA
 Spec == Init /\ [][Next]_vars
@@ -395,6 +402,15 @@ OrphanDeleted == [][(last'.a = "Flush" /\ ~st'.dead /\ DOrph) =>
 ReassociatedKept == [][(last'.a = "Flush" /\ ~st'.dead /\ DOrph) =>
        \A c \in Cs : (st.life[c] = "persistent" /\ c \notin st.marked /\ st.parent[c] # None /\ InSess(st, st.parent[c]) /\ st.parent[c] \notin st.marked
                       /\ c \in Range(st.coll[st.parent[c]]) /\ c \notin st'.stale) => st'.dbc[c] = st.parent[c]]_vars
+\* unidirectional mapping (no backref): a persistent child that sits in the collection of a member parent when the flush starts is not
+\* deleted by it, whatever the order in which it was attached to that parent and detached from another ("unless it has been re-associated").
+\* Carve-out (single hasparent flag, named deviation OneFlagPerChild): a child that a flush has seen in TWO lists at once (an inconsistent
+\* one-to-many graph the user built and flushed) and that is then taken out of the list it was appended to last is deleted although it
+\* still sits in the other list
+UniMemberKept == [][(last'.a = "Flush" /\ ~st'.dead /\ DOrph) =>
+       \A c \in Cs : (st.life[c] = "persistent" /\ c \notin st.marked /\ c \notin st'.multi
+                      /\ \E p \in Ps : InSess(st, p) /\ p \notin st.marked /\ c \in Range(st.coll[p]))
+                      => st'.dbc[c] # "absent"]_vars
 \* after any flush no row remains whose delete-orphan parent row is gone
 NoRowOfGoneParent == [][(last'.a = "Flush" /\ ~st'.dead /\ DOrph) =>
        \A c \in Cs : (st.dbc[c] \in Ps /\ st.dbc[c] \notin st'.dbp) => (st'.dbc[c] = "absent" \/ st'.dbc[c] \in st'.dbp)]_vars
